@@ -234,8 +234,9 @@ class CsrfStore:
         return token == 'store-' + self.tag
 
 
-def make_pred_factory(name):
-    """custom view / route / subscriber predicate: holds when header X-P-<name> equals the configured value"""
+def make_pred_factory(name, prefix='X-P-'):
+    """custom view / route / subscriber predicate: holds when header X-P-<name> equals the configured value
+    (the 'old' variant, used for a registration that a later commit replaces, looks at X-Q-<name>)"""
     class Pred:
         def __init__(self, val, info):
             self.val = val
@@ -249,9 +250,9 @@ def make_pred_factory(name):
             if request is None:
                 return True
             if hasattr(request, 'headers'):
-                return request.headers.get('X-P-' + name) == str(self.val)
+                return request.headers.get(prefix + name) == str(self.val)
             req = getattr(request, 'request', None)      # subscriber predicate: event
-            return True if req is None else req.headers.get('X-P-' + name) == str(self.val)
+            return True if req is None else req.headers.get(prefix + name) == str(self.val)
     Pred.__name__ = 'Pred_' + name
     return Pred
 
@@ -259,20 +260,23 @@ def make_pred_factory(name):
 _PREDF = {}
 
 
-def pred_factory(name):
-    if name not in _PREDF:
-        _PREDF[name] = make_pred_factory(name)
-    return _PREDF[name]
+def pred_factory(name, variant=None):
+    k = (name, variant)
+    if k not in _PREDF:
+        _PREDF[k] = make_pred_factory(name, 'X-Q-' if variant == 'old' else 'X-P-')
+    return _PREDF[k]
 
 
-def make_deriver(tag):
+def make_deriver(tag, label=None):
+    label = label or tag
+
     def deriver(view, info):
         val = info.options.get('opt_' + tag)
 
         def wrapped(context, request):
             resp = view(context, request)
             try:
-                resp.text = resp.text + '[%s:%s]' % (tag, val)
+                resp.text = resp.text + '[%s:%s]' % (label, val)
             except Exception:
                 pass
             return resp
@@ -285,10 +289,11 @@ def make_deriver(tag):
 _DRV = {}
 
 
-def deriver(tag):
-    if tag not in _DRV:
-        _DRV[tag] = make_deriver(tag)
-    return _DRV[tag]
+def deriver(tag, variant=None):
+    k = (tag, variant)
+    if k not in _DRV:
+        _DRV[k] = make_deriver(tag, tag + 'old' if variant == 'old' else tag)
+    return _DRV[k]
 
 
 def _tween(tag):
@@ -723,13 +728,13 @@ def apply_stmt(config, st):
     elif op == 'add_exception_view':
         config.add_exception_view(make_view(st['tag'], st.get('mode', 'exc')), **_view_kwargs(st))
     elif op == 'add_view_predicate':
-        config.add_view_predicate(st['name'], pred_factory(st['name']), weighs_more_than=st.get('more'), weighs_less_than=st.get('less'))
+        config.add_view_predicate(st['name'], pred_factory(st['name'], st.get('variant')), weighs_more_than=st.get('more'), weighs_less_than=st.get('less'))
     elif op == 'add_route_predicate':
-        config.add_route_predicate(st['name'], pred_factory(st['name']), weighs_more_than=st.get('more'), weighs_less_than=st.get('less'))
+        config.add_route_predicate(st['name'], pred_factory(st['name'], st.get('variant')), weighs_more_than=st.get('more'), weighs_less_than=st.get('less'))
     elif op == 'add_subscriber_predicate':
         config.add_subscriber_predicate(st['name'], pred_factory(st['name']))
     elif op == 'add_view_deriver':
-        config.add_view_deriver(deriver(st['tag']), name='drv_' + st['tag'], under=st.get('under'), over=st.get('over'))
+        config.add_view_deriver(deriver(st['tag'], st.get('variant')), name='drv_' + st['tag'], under=st.get('under'), over=st.get('over'))
     elif op == 'add_renderer':
         config.add_renderer(st['name'] or None, RendF(st['tag']))       # '' = the default renderer
     elif op == 'set_security_policy':
@@ -881,6 +886,15 @@ def build_variant(stmts, tree, probes, record=True, stages=None):
         rec.enabled = False
         config.setup_registry()
         rec.enabled = record
+        pre = getattr(stmts, 'pre', None) or []
+        if pre:                       # statement set 1, committed before the program proper
+            for i in range(len(pre)):
+                rec.stmt = PRE + i
+                try:
+                    apply_stmt(config, pre[i])
+                finally:
+                    rec.stmt = None
+            config.commit()
         if stages is None:
             declare_tree(config, stmts, tree, rec)
         else:
@@ -904,6 +918,44 @@ def build_variant(stmts, tree, probes, record=True, stages=None):
 
 # ------------------------------------------------------------------------------------------------
 # structure of a program: slots, references, predicates (all STRUCTURAL: from the statements only)
+
+PRE = 1000       # statement ids of the first-commit statements ("pre") are PRE + index
+
+
+class Prog(list):
+    """the statements of the second (or only) commit, indexable also by PRE+i for the statements of an earlier,
+    already committed, statement set"""
+    pre = ()
+
+    def __getitem__(self, i):
+        if isinstance(i, int) and i >= PRE:
+            return self.pre[i - PRE]
+        return list.__getitem__(self, i)
+
+    def everything(self):
+        return list(self.pre) + list(self)
+
+
+def prog_of(case):
+    p = Prog(case['stmts'])
+    p.pre = list(case.get('pre') or [])
+    return p
+
+
+def everything(stmts):
+    return stmts.everything() if isinstance(stmts, Prog) else list(stmts)
+
+
+def carry(case, **kw):
+    """a derived case keeps the first-commit statements and the staged flag"""
+    out = {'stmts': case['stmts'], 'variants': case['variants']}
+    if case.get('pre'):
+        out['pre'] = case['pre']
+    if 'staged' in case:
+        out['staged'] = case['staged']
+    out.update(kw)
+    return out
+
 
 VIEW_OPS = ('add_view', 'add_notfound_view', 'add_forbidden_view', 'add_exception_view')
 ROUTE_CLASS = ('add_route', 'add_static_view')
@@ -1013,6 +1065,7 @@ BUILTIN_DERIVERS = ('secured_view', 'owrapped_view', 'http_cached_view', 'decora
 def expected_valid(stmts):
     """structural validity: everything a statement refers to is declared by SOME statement of the program (in
     whatever position), and no two statements exclude each other.  Such a program must configure."""
+    stmts = everything(stmts)
     ops = [s['op'] for s in stmts]
     routes = {s['name'] for s in stmts if s['op'] == 'add_route'}
     vpreds = {s['name'] for s in stmts if s['op'] == 'add_view_predicate'}
@@ -1049,6 +1102,8 @@ def well_formed(case):
         stmts = case['stmts']
         if not isinstance(stmts, list) or not stmts or not all(isinstance(s, dict) and 'op' in s for s in stmts):
             return False
+        if not all(isinstance(s, dict) and 'op' in s for s in (case.get('pre') or [])):
+            return False
         vs = case['variants']
         if not isinstance(vs, list) or len(vs) < 1:
             return False
@@ -1082,6 +1137,7 @@ def _route_paths(st):
 def probes_for(stmts):
     """every registered view (with requests that satisfy its predicates, and requests that satisfy the
     predicates of several views at once), 404, 403"""
+    stmts = everything(stmts)
     paths = ['/', '/a', '/b', '/a/x', '/b/x', '/a/y', '/nope', '/nope/deeper']
     for st in stmts:
         if st['op'] == 'add_route':
@@ -1265,6 +1321,16 @@ def gen_program(rng, findings=False):
     for r in use_renderers:
         if rng.random() < 0.9:
             stmts.append({'op': 'add_renderer', 'name': r, 'tag': r.upper()})
+    if rng.random() < 0.22:
+        # OVERRIDE of a renderer every Configurator already provides ('json' / 'string' are registered and committed
+        # by setup_registry): a view naming it must get the program's factory wherever the statement stands
+        rn = rng.choice(['json', 'string'])
+        stmts.append({'op': 'add_renderer', 'name': rn, 'tag': 'C' + rn.upper()})
+        users = [v for v in views if v.get('renderer') == rn]
+        cand = [v for v in views if not v.get('renderer') and v.get('mode') in (None, 'plain')]
+        if not users and cand:
+            v = rng.choice(cand)
+            v['renderer'] = rn; v['mode'] = 'dict'
     if rng.random() < 0.25:
         stmts.append({'op': 'add_renderer', 'name': '', 'tag': 'DEF'})          # the default renderer
         for v in views:
@@ -1329,6 +1395,62 @@ def gen_program(rng, findings=False):
         drop = set(rng.sample(cand, min(len(cand), len(stmts) - 14)))
         stmts = [s_ for i, s_ in enumerate(stmts) if i not in drop]
     return stmts
+
+
+def gen_pre(rng, stmts):
+    """statement set 1 of a two-commit program: providers that the second statement set OVERRIDES (same renderer
+    name / predicate name / deriver name / factories / policy / mapper, another implementation) or merely uses (a
+    route, a renderer, a predicate only the first commit declares).  Committed before the program proper, so
+    everything it registers is "already there" when the second set is declared — in whatever order."""
+    pre = []
+    for st in stmts:
+        op = st['op']
+        if op == 'add_renderer' and st['name'] and rng.random() < 0.7:
+            pre.append({'op': 'add_renderer', 'name': st['name'], 'tag': 'OLD' + st['tag']})
+        elif op == 'add_view_predicate' and rng.random() < 0.5:
+            pre.append({'op': 'add_view_predicate', 'name': st['name'], 'variant': 'old'})
+        elif op == 'add_route_predicate' and rng.random() < 0.5:
+            pre.append({'op': 'add_route_predicate', 'name': st['name'], 'variant': 'old'})
+        elif op == 'add_view_deriver' and rng.random() < 0.5 and not st.get('under'):
+            pre.append({'op': 'add_view_deriver', 'tag': st['tag'], 'variant': 'old'})
+        elif op == 'set_security_policy' and rng.random() < 0.6:
+            pre.append({'op': 'set_security_policy', 'tag': 'oldpol', 'allowed': sorted(set(['p1', 'p2']) - set(st['allowed']))})
+        elif op == 'set_root_factory' and rng.random() < 0.6:
+            pre.append({'op': 'set_root_factory', 'factory': 'Root2' if st['factory'] == 'Root1' else 'Root1'})
+        elif op == 'set_session_factory' and rng.random() < 0.6:
+            pre.append({'op': 'set_session_factory', 'factory': 's2' if st['factory'] == 's1' else 's1'})
+        elif op == 'set_request_factory' and rng.random() < 0.6:
+            pre.append({'op': 'set_request_factory', 'tag': 'old'})
+        elif op == 'set_view_mapper' and rng.random() < 0.7:
+            pre.append({'op': 'set_view_mapper', 'tag': 'mold'})
+        elif op == 'set_default_permission' and rng.random() < 0.6:
+            pre.append({'op': 'set_default_permission', 'permission': 'p2' if st['permission'] == 'p1' else 'p1'})
+        elif op == 'add_request_method' and rng.random() < 0.5:
+            pre.append(dict(st, tag='old' + st['tag']))
+    # things only the first commit provides
+    used = {v.get('renderer') for v in stmts if v['op'] in VIEW_OPS} - {None, 'json', 'string', ''}
+    declared = {s_['name'] for s_ in stmts if s_['op'] == 'add_renderer'} | {p_['name'] for p_ in pre if p_['op'] == 'add_renderer'}
+    for rn in sorted(used - declared):
+        if rng.random() < 0.5:
+            pre.append({'op': 'add_renderer', 'name': rn, 'tag': 'PRE' + rn.upper()})
+    if rng.random() < 0.3 and not any(s_['op'] == 'set_view_mapper' for s_ in list(stmts) + pre):
+        pre.append({'op': 'set_view_mapper', 'tag': 'mpre'})
+    if rng.random() < 0.3 and not any(s_['op'] == 'add_renderer' and s_['name'] in ('json', 'string') for s_ in pre):
+        pre.append({'op': 'add_renderer', 'name': rng.choice(['json', 'string']), 'tag': 'PREB'})
+    rng.shuffle(pre)
+    return pre[:6]
+
+
+def gen_case(rng, k, m, findings=False, two_commits=None):
+    stmts = gen_program(rng, findings=findings)
+    case = {'stmts': stmts, 'variants': gen_variants(rng, stmts, k, m)}
+    if two_commits is None:
+        two_commits = rng.random() < 0.3
+    if two_commits:
+        pre = gen_pre(rng, stmts)
+        if pre:
+            case['pre'] = pre
+    return case
 
 
 def respect_documented(stmts, order, base):
@@ -1406,7 +1528,7 @@ def disc_str(d):
 
 def eval_case(case, table_by_line, record=True):
     """build every variant; returns dict(results=[…per variant…], probes=[…])"""
-    stmts = case['stmts']
+    stmts = prog_of(case)
     probes = case.get('probes') or probes_for(stmts)
     results = []
     for tree in case['variants']:
@@ -1529,7 +1651,7 @@ def repair_tree(tree, stmts, cls, base_order):
 
 def classify(case, i, table_by_line, res0, resi, probes):
     """variant 0 and variant i of `case` answer differently.  Returns (finding id | None, detail)."""
-    stmts = case['stmts']
+    stmts = prog_of(case)
     classes = finding_classes(stmts)
     base = list(flatten(case['variants'][0]))
     oi = list(flatten(case['variants'][i]))
@@ -1615,8 +1737,9 @@ def observed_key(fam, key):
 
 
 def model_case(case, ev):
-    """the JSON line for drv_c08 built from variant 0's recorded actions"""
-    stmts = case['stmts']
+    """the JSON line for drv_c08 built from variant 0's recorded actions; the actions of an earlier commit
+    (statement ids >= PRE) form the model's first commit"""
+    stmts = prog_of(case)
     intern = {}
 
     def key(s):
@@ -1636,16 +1759,19 @@ def model_case(case, ev):
     for r in ev['results']:
         order, paths = [], []
         for a in r['actions']:
+            if a['stmt'] is not None and a['stmt'] >= PRE:
+                continue
             order.append(a['aid'])
             paths.append([specs.setdefault(s, len(specs) + 1) for s in a['path']])
         variants.append({'order': order, 'paths': paths})
-    return {'actions': actions, 'variants': variants}, intern
+    pre = [a['aid'] for a in acts0 if a['stmt'] is not None and a['stmt'] >= PRE]
+    return {'actions': actions, 'variants': variants, 'pre': {'order': pre, 'paths': [[] for _ in pre]}}, intern
 
 
 def check_correspondence(case, ev, reply, intern):
     """impl vs model: phases, execution order, footprints; returns list of mismatch strings"""
     mm = []
-    stmts = case['stmts']
+    stmts = prog_of(case)
     rev = {v: k for k, v in intern.items()}
     acts0 = ev['results'][0]['actions']
     if not reply.get('table_ok', False):
@@ -1664,8 +1790,9 @@ def check_correspondence(case, ev, reply, intern):
                 mm.append('phase: %s (%s) registered with order=%r, table says %r' % (a['site'], a['kind'], a['order'], ph.get(a['aid'])))
         mv = reply['variants'][vi]
         if r['config'] == 'ok':
-            if mv['out'] != 'ok' or mv['exec'] != r['exec']:
-                mm.append('execution order of variant %d: impl %r, model %s %r' % (vi, r['exec'], mv['out'], mv['exec']))
+            mexec = list(reply.get('pre_exec') or []) + mv['exec']
+            if mv['out'] != 'ok' or mexec != r['exec']:
+                mm.append('execution order of variant %d: impl %r, model %s %r' % (vi, r['exec'], mv['out'], mexec))
         # footprints
         for who, events in r['events'].items():
             kind, ident = who.split(':')
@@ -1750,17 +1877,17 @@ def judge(case, ev, tbl):
                     'variant%d' % i: res[i]['answers'][k] if k is not None else res[i]['config'], 'differing_probes': len(ks)}
         else:
             impl = {'variant0': [res[0]['config'], res[0].get('error_detail')], 'variant%d' % i: [res[i]['config'], res[i].get('error_detail')]}
-        v = {'case': {'stmts': case['stmts'], 'variants': [case['variants'][0], case['variants'][i]]},
+        v = {'case': carry(case, variants=[case['variants'][0], case['variants'][i]]),
              'impl': impl, 'expected': 'identical (status, selected headers, body) for every probe and identical configuration outcome',
              'detail': detail}
         if fid:
             v['finding'] = fid
         out.append(v)
-    if expected_valid(case['stmts']):
+    if expected_valid(prog_of(case)):
         bad = [i for i in range(len(res)) if res[i]['config'] != 'ok']
         if bad:
             i = bad[0]
-            out.append({'case': {'stmts': case['stmts'], 'variants': [case['variants'][i]], 'staged': False},
+            out.append({'case': carry(case, variants=[case['variants'][i]], staged=False),
                         'impl': {'config': res[i]['config'], 'error_detail': res[i].get('error_detail')},
                         'expected': 'a conflict-free program in which everything referred to is declared by some statement configures (in every order / nesting)',
                         'detail': 'valid program does not configure'})
@@ -1774,7 +1901,7 @@ def judge(case, ev, tbl):
         else:
             impl = {'variant0 (one commit)': [res[0]['config'], res[0].get('error_detail')],
                     'declared dependencies-first with a commit after each level': [st['config'], st.get('error_detail')]}
-        out.append({'case': {'stmts': case['stmts'], 'variants': [case['variants'][0]], 'staged': True}, 'impl': impl,
+        out.append({'case': carry(case, variants=[case['variants'][0]], staged=True), 'impl': impl,
                     'expected': 'a statement may refer to a route / predicate / deriver / renderer / policy / permission declared later: same application as when those are declared (and committed) first',
                     'detail': 'single-commit program differs from the staged reference build'})
     return out
@@ -1799,13 +1926,30 @@ def drop_stmt(case, k):
             elif x != k:
                 out.append(x - 1 if x > k else x)
         return out
-    return {'stmts': case['stmts'][:k] + case['stmts'][k + 1:], 'variants': [go(t) for t in case['variants']],
-            'staged': case.get('staged', True)}
+    return carry(case, stmts=case['stmts'][:k] + case['stmts'][k + 1:], variants=[go(t) for t in case['variants']],
+                 staged=case.get('staged', True))
 
 
 def shrink_case(case, tbl, budget=120):
-    cur = {'stmts': case['stmts'], 'variants': case['variants'], 'staged': case.get('staged', True)}
+    cur = carry(case, staged=case.get('staged', True))
     steps = 0
+    # the earlier commit first: drop it entirely / statement by statement
+    if cur.get('pre'):
+        c = {k: v for k, v in cur.items() if k != 'pre'}
+        steps += 1
+        if violates(c, tbl):
+            cur = c
+        else:
+            k = 0
+            while k < len(cur.get('pre') or []) and steps < budget:
+                c = dict(cur, pre=cur['pre'][:k] + cur['pre'][k + 1:])
+                if not c['pre']:
+                    del c['pre']
+                steps += 1
+                if violates(c, tbl):
+                    cur = c
+                else:
+                    k += 1
     progress = True
     while progress and steps < budget:
         progress = False
@@ -1818,7 +1962,7 @@ def shrink_case(case, tbl, budget=120):
             if steps >= budget:
                 break
     # flatten the include trees if the failure does not need them
-    flat = {'stmts': cur['stmts'], 'variants': [list(flatten(t)) for t in cur['variants']], 'staged': cur.get('staged', True)}
+    flat = carry(cur, variants=[list(flatten(t)) for t in cur['variants']], staged=cur.get('staged', True))
     if flat != cur and violates(flat, tbl):
         cur = flat
     # drop optional keys of statements
@@ -1862,6 +2006,23 @@ ALL_DIRECTIVES_2 = [  # the legacy policies (mutually exclusive with set_securit
 ]
 
 SMALL_SETS = [   # exhaustive scope: every permutation (respecting the documented pairs) of these statement sets
+    # overriding what a default Configurator already provides: the built-in renderers, on either side of their users
+    [{'op': 'add_view', 'tag': 'v1', 'route_name': 'r1', 'renderer': 'json', 'mode': 'dict'},
+     {'op': 'add_route', 'name': 'r1', 'pattern': '/r/{x}'}, {'op': 'add_renderer', 'name': 'json', 'tag': 'CJSON'},
+     {'op': 'add_view', 'tag': 'v2', 'renderer': 'string', 'mode': 'dict'}, {'op': 'add_renderer', 'name': 'string', 'tag': 'CSTRING'}],
+    # two commits: the first provides renderer / predicate / deriver / policy / root factory / mapper, the second replaces them
+    {'pre': [{'op': 'add_renderer', 'name': 'rr1', 'tag': 'OLD'}, {'op': 'add_view_predicate', 'name': 'cp1', 'variant': 'old'},
+             {'op': 'add_view_deriver', 'tag': 'd1', 'variant': 'old'}, {'op': 'set_security_policy', 'tag': 'oldpol', 'allowed': ['p1']},
+             {'op': 'set_view_mapper', 'tag': 'mold'}],
+     'stmts': [{'op': 'add_view', 'tag': 'v1', 'renderer': 'rr1', 'mode': 'dict', 'permission': 'p1', 'custom': {'cp1': '1'}, 'dopts': {'opt_d1': 'x'}},
+               {'op': 'add_renderer', 'name': 'rr1', 'tag': 'NEW'}, {'op': 'add_view_predicate', 'name': 'cp1'},
+               {'op': 'add_view_deriver', 'tag': 'd1'}, {'op': 'set_security_policy', 'tag': 'pol', 'allowed': []}]},
+    {'pre': [{'op': 'set_root_factory', 'factory': 'Root2'}, {'op': 'set_session_factory', 'factory': 's2'},
+             {'op': 'set_request_factory', 'tag': 'old'}, {'op': 'add_route', 'name': 'r0', 'pattern': '/q'},
+             {'op': 'set_default_permission', 'permission': 'p2'}],
+     'stmts': [{'op': 'add_view', 'tag': 'v1', 'route_name': 'r0'}, {'op': 'set_root_factory', 'factory': 'Root1'},
+               {'op': 'set_session_factory', 'factory': 's1'}, {'op': 'set_default_permission', 'permission': 'p1'},
+               {'op': 'set_security_policy', 'tag': 'pol', 'allowed': ['p2']}]},
     [{'op': 'add_view', 'tag': 'v1', 'route_name': 'r1', 'renderer': 'rr1', 'mode': 'dict'},
      {'op': 'add_route', 'name': 'r1', 'pattern': '/r/{x}'}, {'op': 'add_renderer', 'name': 'rr1', 'tag': 'RR1'},
      {'op': 'add_route', 'name': 'r2', 'pattern': '/r/a'}, {'op': 'add_view', 'tag': 'v2', 'route_name': 'r2'}],
@@ -1883,6 +2044,17 @@ SMALL_SETS = [   # exhaustive scope: every permutation (respecting the documente
 
 
 def permutation_cases(stmts, limit=None):
+    pre = None
+    if isinstance(stmts, dict):
+        pre, stmts = stmts.get('pre'), stmts['stmts']
+    out = _permutation_cases(stmts, limit)
+    if pre:
+        for c in out:
+            c['pre'] = pre
+    return out
+
+
+def _permutation_cases(stmts, limit=None):
     n = len(stmts)
     base = list(range(n))
     seen, variants = set(), []
@@ -1929,7 +2101,7 @@ def _pool_map(items, workers=4):
 
 
 def later_refs(case):
-    refs = references(case['stmts'])
+    refs = references(case['stmts']) 
     kinds = set()
     for t in case['variants']:
         pos = {i: k for k, i in enumerate(flatten(t))}
@@ -1975,7 +2147,7 @@ def run_cases(ctx, named_cases, out):
             vfutil.bump(d['later_references'], k)
         orders = {tuple(flatten(t)) for t in case['variants']}
         if lr and len(orders) >= 2:
-            out['_nontrivial'].add(vfutil.canon(case['stmts']))
+            out['_nontrivial'].add(vfutil.canon([case.get('pre'), case['stmts']]))
         for v in r['viol']:
             v['stream'] = r['name']
             out['violations'].append(v)
@@ -1995,7 +2167,7 @@ def run_cases(ctx, named_cases, out):
             else:
                 out['agreeing'] += 1
         if len(out['samples']) < 8:
-            out['samples'].append({'stmts': case['stmts'], 'variants': case['variants'][:2]})
+            out['samples'].append(carry(case, variants=case['variants'][:2]))
 
 
 def new_out():
@@ -2040,22 +2212,23 @@ def run(ctx):
     named = []
     for f, c in ctx.corpus():
         if isinstance(c, dict) and 'stmts' in c and well_formed(c):
-            named.append(('corpus:' + f, {'stmts': c['stmts'], 'variants': c['variants']}))
+            named.append(('corpus:' + f, carry(c)))
     base = list(range(len(ALL_DIRECTIVES)))
     rng = ctx.rng
     named.append(('all-directives', {'stmts': ALL_DIRECTIVES, 'variants': gen_variants(rng, ALL_DIRECTIVES, 3, 2)}))
     named.append(('all-directives-2', {'stmts': ALL_DIRECTIVES_2, 'variants': [[0, 1, 2], [2, 1, 0], [[1], [0, [2]]]]}))
-    nsmall = ctx.n(2, len(SMALL_SETS))
-    for k in range(nsmall):
-        s = SMALL_SETS[(ctx.seed + k) % len(SMALL_SETS)]
-        for c in permutation_cases(s, limit=ctx.n(48, None)):
+    # quick: the override-of-a-built-in set always, plus two rotating ones; thorough: all
+    pick = list(range(len(SMALL_SETS))) if ctx.tier != 'quick' else \
+        sorted({0, 1 + (ctx.seed % (len(SMALL_SETS) - 1)), 1 + ((ctx.seed + 1) % (len(SMALL_SETS) - 1))})
+    for k in pick:
+        for c in permutation_cases(SMALL_SETS[k], limit=ctx.n(48, None)):
             named.append(('exhaustive-%d' % k, c))
     n = ctx.n(300, 3000)
     kk, m = ctx.n(3, 4), ctx.n(2, 3)
     for i in range(n):
         findings = rng.random() < 0.12
-        stmts = gen_program(rng, findings=findings)
-        named.append(('random-findings' if findings else 'random', {'stmts': stmts, 'variants': gen_variants(rng, stmts, kk, m)}))
+        c = gen_case(rng, kk, m, findings=findings)
+        named.append((('random-findings' if findings else 'random') + ('-2commits' if c.get('pre') else ''), c))
     for nm, _ in named:
         vfutil.bump(out['distribution']['streams'], nm.split(':')[0].split('-')[0] if nm.startswith('exhaustive') else nm.split(':')[0])
     # batches, so that a time-out still reports
@@ -2080,8 +2253,7 @@ def search(ctx):
             for c in permutation_cases(s):
                 named.append(('exhaustive-%d' % k, c))
         for i in range(ctx.n(600, 3000)):
-            stmts = gen_program(ctx.rng, findings=False)
-            named.append(('random', {'stmts': stmts, 'variants': gen_variants(ctx.rng, stmts, 4, 2)}))
+            named.append(('random', gen_case(ctx.rng, 4, 2, findings=False)))
         for k in range(0, len(named), 400):
             if ctx.time_left() < 120:
                 break
@@ -2098,7 +2270,7 @@ def search(ctx):
 def replay(ctx, rep):
     tbl = table_by_line(ctx.src)
     case = rep.get('case', rep)
-    case = {'stmts': case['stmts'], 'variants': case['variants'], 'staged': case.get('staged', True)}
+    case = carry(case, staged=case.get('staged', True))
     ev = eval_case(case, tbl)
     viol = judge(case, ev, tbl)
     res = {'case': case, 'probes': len(ev['probes']),
